@@ -240,4 +240,4 @@ def shard_random(ctx, shard, nshards, n):
 def run(ctx):
     ctx.run_parallel('shard_fixed')
     ctx.exhaustive('%d fixed abbreviations × every combination of 7 option toggles (%d) against the default options' % (len(FIXED), 2 * 2 * 3 * 2 * 3 * 2 * 2))
-    ctx.run_parallel('shard_random', extra=(ctx.pick(250, 8000),))
+    ctx.run_parallel('shard_random', extra=(ctx.pick(250, 3000),))
